@@ -452,3 +452,38 @@ def run_b11(chk, repo):
     chk.instance(B11, f'getters with an implicit default: {sorted(defaults)}')
     if n_sites == 0:
         raise AnalysisError('B11: no replace_option through a defaulted getter found')
+
+
+def run_b12(chk, repo):
+    B12 = chk.rule('B12', 'coming from a general linear ADVAN (5/7) the elimination rate constant is renamed to K for every '
+                          'closed-form ADVAN that new_advan_trans can select', floor=2)
+    um = repo.module(f'{NM}.update')
+    f = um.functions.get('pk_param_conversion')
+    g = um.functions.get('new_advan_trans')
+    if f is None or g is None:
+        raise AnalysisError('pk_param_conversion / new_advan_trans not found')
+    selectable = {n.value.value for n in walk_no_nested(g.node) if isinstance(n, ast.Assign)
+                  and unparse(n.targets[0]) == 'advan' and isinstance(n.value, ast.Constant)}
+    closed = {a for a in selectable if a not in ('ADVAN5', 'ADVAN7', 'ADVAN6', 'ADVAN8', 'ADVAN9', 'ADVAN13')}
+    covered = set()
+    site = None
+    for n in ast.walk(f.node):
+        if isinstance(n, ast.If) and 'advan' in {x.id for x in ast.walk(n.test) if isinstance(x, ast.Name)}:
+            renames_to_k = any(isinstance(a, ast.Assign) and isinstance(a.targets[0], ast.Subscript)
+                               and unparse(a.value) == "Expr.symbol('K')" and 'K{' in unparse(a.targets[0])
+                               for s_ in n.body for a in ast.walk(s_))
+            if renames_to_k:
+                site = n
+                lits = {c.value for c in ast.walk(n.test) if isinstance(c, ast.Constant) and isinstance(c.value, str)}
+                covered |= lits
+    if site is None:
+        raise AnalysisError('B12: renaming K<i>0 -> K not found in pk_param_conversion')
+    chk.instance(B12, f'new_advan_trans can select {sorted(selectable)}; closed-form: {sorted(closed)}')
+    chk.instance(B12, f'pk_param_conversion renames K<i>0 -> K for {sorted(covered)}')
+    missing = sorted(closed - covered, key=lambda a: int(a[5:]))
+    if missing:
+        chk.violation(B12, um.rel, 'pk_param_conversion', f'K<i>0 -> K only for {sorted(covered)}',
+                      f'going from ADVAN5/7 to {missing} keeps the elimination constant under its ADVAN5 name (K20, K10): '
+                      f'PREDPP expects K', line=site.lineno,
+                      witness='pheno -> first order absorption -> peripheral -> 2 transits -> 0 transits: $SUBROUTINE ADVAN4 '
+                              'TRANS1 with K20 = CL/V2 and no K')
